@@ -195,6 +195,37 @@ Proof.
   intros [ND HG] Hy. cbn [sp_result]. rewrite Hy. constructor; sproj; auto.
 Qed.
 
+Lemma alookup_gh_next g l :
+  alookup g (map gh_next l) =
+  option_map (fun k => match k with ZNow => ZNext | _ => k end) (alookup g l).
+Proof.
+  induction l as [|[k x] l IH]; cbn [map alookup]; auto.
+  destruct x as [| |r]; cbn [gh_next alookup]; destruct (g =? k); auto.
+Qed.
+
+Lemma akeys_gh_next l : akeys (map gh_next l) = akeys l.
+Proof.
+  unfold akeys. rewrite map_map. apply map_ext. intros [k [| |r]]; reflexivity.
+Qed.
+
+(* the frame is abandoned: what was to be dropped in it is dropped in the next *)
+Lemma abort_g s t g f b k s1 :
+  Inv s (g :: f) b -> RelG s t f -> abort (set_done s g) g = (s1, false) ->
+  RelG s1 (sp_result t g (RRaise k)) [].
+Proof.
+  intros HI [ND HG] Hd. destruct (front_head _ _ _ _ HI) as (Ea & Eg & Ep & Hn & _).
+  unfold abort in Hd. sproj. rewrite Eg, Ep in Hd. injection Hd as <-.
+  constructor; cbn [sp_result]; sproj.
+  - rewrite akeys_gh_next. now apply NoDup_akeys_adel.
+  - intros x Hx1 Hx2. rewrite amem_adel in Hx1. apply andb_true_iff in Hx1.
+    destruct Hx1 as [N Hx1]. apply negb_true_iff, Z.eqb_neq in N.
+    rewrite memz_remz in Hx2. apply andb_true_iff in Hx2. destruct Hx2 as [_ Hx2].
+    specialize (HG x Hx1 Hx2). rewrite alookup_gh_next, alookup_adel_neq by auto.
+    unfold gh_ok in *. sproj. rewrite alookup_adel_neq by auto.
+    destruct (alookup x (t_ghost t)) as [[| |r]|]; cbn [option_map]; auto.
+    apply (i_in _ _ _ HI). cbn [app In]. right. apply in_or_app. now left.
+Qed.
+
 (* ---- the loop ------------------------------------------------------------------ *)
 Lemma exec_pre_g s t g f k outs acts :
   RelG s t (g :: f) -> memz g (killq s) = false ->
@@ -207,19 +238,19 @@ Proof.
 Qed.
 
 Lemma loop_g sc : forall fuel f s t b log s' e,
-  Inv s f b -> Rel s t f b -> RelG s t f ->
+  Inv s f b -> Rel s t f b -> RelG s t f -> t_abort t = None ->
   loop sc fuel s log = Some (s', [], e) ->
   okwf (fold_left (sp_exec sc) log t) = true ->
   RelG s' (fold_left (sp_exec sc) log t) [].
 Proof.
-  induction fuel as [|fuel IH]; intros f s t b log s' e HI HR HG Hl Hwf; [discriminate|].
+  induction fuel as [|fuel IH]; intros f s t b log s' e HI HR HG Hab Hl Hwf; [discriminate|].
   cbn [loop] in Hl. destruct f as [|g f].
   - rewrite (i_act _ _ _ HI) in Hl. cbn [map app] in Hl. injection Hl as <- -> <-. exact HG.
   - destruct (front_head _ _ _ _ HI) as (Ea & Eg & Ep & Hn & ND & Hpos).
     rewrite Ea in Hl.
     destruct (memz g (killq s)) eqn:Hk.
     { destruct (drop_active_sim _ _ _ _ _ HI HR Hk) as (s1 & Ed & HI1 & HR1 & HL1).
-      rewrite Ed in Hl. eapply IH; [exact HI1|exact HR1| |exact Hl|exact Hwf].
+      rewrite Ed in Hl. eapply IH; [exact HI1|exact HR1| |exact Hab|exact Hl|exact Hwf].
       eapply drop_active_g; eauto. }
     destruct (memz g (gdone s)) eqn:Hdn.
     { exfalso. apply memz_In in Hdn. apply (i_done _ _ _ HI) in Hdn. congruence. }
@@ -233,8 +264,8 @@ Proof.
       [|discriminate].
     cbn [fold_left] in *.
     pose proof (okwf_fold_mono _ _ _ Hwf) as Hwf1.
-    destruct (exec_sim _ _ _ _ _ _ _ _ _ _ HI HR Hk Hnth Hrun Hwf1)
-      as (Hwf4 & b1 & HI1 & HR1 & Ho & Hd & H08 & HL1).
+    destruct (exec_sim _ _ _ _ _ _ _ _ _ _ HI HR Hk Hab Hnth Hrun Hwf1)
+      as (Hwf4 & Hab4 & b1 & HI1 & HR1 & Ho & Hd & H08 & HL1).
     rewrite (sp_exec_unfold _ _ _ _ _ _ _ Hnth) in *.
     set (k := zget (pcs s) g) in *.
     assert (HG1 : RelG s1 (sp_actions (exec_pre t g k outs acts) acts outs) f).
@@ -245,18 +276,24 @@ Proof.
       - unfold exec_pre. sproj. intros x Hx. apply In_remz in Hx. destruct Hx as [Hx N].
         destruct (r_due _ _ _ _ HR x Hx) as [->|H]; [congruence|auto]. }
     set (t4 := sp_actions (exec_pre t g k outs acts) acts outs) in *.
-    destruct res as [y|v].
-    + destruct (is_pos y) as [z|] eqn:Ey.
+    destruct res as [y|v|x].
+    + assert (Hab5 : t_abort (sp_result t4 g (RYield y)) = None).
+      { cbn [sp_result]. destruct (is_pos y); [destruct (is_act t4 g)|]; exact Hab4. }
+      destruct (is_pos y) as [z|] eqn:Ey.
       * assert (y = YNum z /\ 0 < z) as [-> Hz].
         { destruct y as [|z']; cbn in Ey; [discriminate|].
           destruct (0 <? z') eqn:E; [|discriminate]. injection Ey as ->. split; auto. lia. }
         destruct (park_sim _ _ _ _ _ _ HI1 HR1 Hz Ho Hd) as (HI2 & HR2 & HL2).
-        eapply IH; [exact HI2|exact HR2| |exact Hl|exact Hwf]. eapply park_g; eauto.
+        eapply IH; [exact HI2|exact HR2| |exact Hab5|exact Hl|exact Hwf]. eapply park_g; eauto.
       * destruct (rotate_sim _ _ _ _ _ _ HI1 HR1 Ey Ho Hd) as (HI2 & HR2 & HL2).
-        eapply IH; [exact HI2|exact HR2| |exact Hl|exact Hwf]. now apply rotate_g.
+        eapply IH; [exact HI2|exact HR2| |exact Hab5|exact Hl|exact Hwf]. now apply rotate_g.
     + destruct (finish_sim _ _ _ _ _ v HI1 HR1 Ho Hd) as (s2 & Ef & HI2 & HR2 & HL2).
       rewrite Ef in Hl.
-      eapply IH; [exact HI2|exact HR2| |exact Hl|exact Hwf]. eapply finish_g; eauto.
+      assert (Hab5 : t_abort (sp_result t4 g (RReturn v)) = None) by exact Hab4.
+      eapply IH; [exact HI2|exact HR2| |exact Hab5|exact Hl|exact Hwf]. eapply finish_g; eauto.
+    + destruct (abort_sim _ _ _ _ _ x HI1 HR1 Ho Hd) as (s2 & Ef & HI2 & HR2 & HL2).
+      rewrite Ef in Hl. injection Hl as <- -> <-. cbn [fold_left].
+      eapply abort_g; eauto.
 Qed.
 
 (* ---- start and end of a frame --------------------------------------------------- *)
@@ -325,8 +362,8 @@ Proof.
 Qed.
 
 (* ---- operations and traces ------------------------------------------------------ *)
-Lemma step_g sc s t b o ob s' :
-  Inv s [] b -> Rel s t [] b -> RelG s t [] -> step sc s o ob = Some s' ->
+Lemma step_g sc s t b o ob fut s' :
+  Inv s [] b -> Rel s t [] b -> RelG s t [] -> step sc s o ob fut = Some s' ->
   okwf (sp_step sc t o ob) = true ->
   RelG s' (sp_step sc t o ob) [].
 Proof.
@@ -345,31 +382,31 @@ Proof.
     eapply (action_g s t [] b [] (AState g)); eauto; reflexivity.
   - destruct (oz_eqb v _); [|discriminate]. injection Hs as <-.
     eapply RelG_ext; [exact HG|reflexivity].
-  - unfold process in Hs. destruct (wake s dt log) as [[s1 e1]|] eqn:Ew; [|discriminate].
+  - unfold process in Hs. destruct (wake s dt (log ++ fut)) as [[s1 e1]|] eqn:Ew; [|discriminate].
     destruct (wake_sim _ _ _ _ _ _ HI Ew) as (-> & W & HI1 & Hst & HW & Hpc & Hpv & Hdn & HL1 & _).
     destruct (loop sc _ _ log) as [[[s2 log'] e]|] eqn:El; [|discriminate].
     destruct log' as [|? ?]; [|discriminate].
-    destruct (outcome_eqb exc (if e then OKeyError else OOk)) eqn:Ee; [|discriminate].
+    destruct (outcome_eqb exc e) eqn:Ee; [|discriminate].
     injection Hs as <-.
     apply okwf_frame_end in Hwf.
     destruct (tick_rel s t b dt s1 W (0 <=? dt) HR HI1 Hst HW Hpc Hpv Hdn) as [HI2 HR2].
-    pose proof (tick_g s t b dt log s1 W (0 <=? dt) HI HG Ew HI1) as HG2.
-    pose proof (loop_g sc _ _ _ _ _ _ _ _ HI2 HR2 HG2 El Hwf) as HG3.
-    destruct (loop_sim sc _ _ _ _ _ _ _ _ HI2 HR2 El Hwf) as (_ & b' & HI3 & _).
+    pose proof (tick_g s t b dt (log ++ fut) s1 W (0 <=? dt) HI HG Ew HI1) as HG2.
+    pose proof (loop_g sc _ _ _ _ _ _ _ _ HI2 HR2 HG2 eq_refl El Hwf) as HG3.
+    destruct (loop_sim sc _ _ _ _ _ _ _ _ HI2 HR2 eq_refl El Hwf) as (_ & b' & HI3 & _).
     eapply frame_end_g; eauto.
 Qed.
 
 Lemma run_g sc tr : forall s t b s',
   Inv s [] b -> Rel s t [] b -> RelG s t [] -> run sc s tr = Some s' ->
-  okwf (sp_run sc t tr) = true ->
+  okwf (sp_run sc t tr) = true -> t_abort t = None ->
   RelG s' (sp_run sc t tr) [].
 Proof.
-  induction tr as [|[o ob] tr IH]; intros s t b s' HI HR HG Hr Hwf.
+  induction tr as [|[o ob] tr IH]; intros s t b s' HI HR HG Hr Hwf Hab.
   - injection Hr as <-. exact HG.
-  - cbn [run] in Hr. destruct (step sc s o ob) as [s1|] eqn:Es; [|discriminate].
+  - cbn [run] in Hr. destruct (step sc s o ob (future tr)) as [s1|] eqn:Es; [|discriminate].
     cbn [sp_run] in *. pose proof (okwf_sp_run_mono _ _ _ Hwf) as Hwf1.
-    destruct (step_sim _ _ _ _ _ _ _ HI HR Es Hwf1) as (b1 & HI1 & HR1 & _).
-    eapply (IH s1 _ b1); [exact HI1|exact HR1| |exact Hr|exact Hwf].
+    destruct (step_sim _ _ _ _ _ _ _ _ HI HR Es Hwf1 Hab) as (b1 & HI1 & HR1 & Hab1 & _).
+    eapply (IH s1 _ b1); [exact HI1|exact HR1| |exact Hr|exact Hwf|exact Hab1].
     eapply step_g; [exact HI|exact HR|exact HG|exact Es|exact Hwf1].
 Qed.
 
@@ -421,9 +458,9 @@ Proof.
   - unfold wf_b, accepts, known09_b, final in *.
     apply andb_true_iff in Hwf. destruct Hwf as [_ Hwf].
     destruct (run (c_scripts c) st0 (c_trace c)) as [s|] eqn:Er; [|discriminate].
-    destruct (run_sim _ _ _ _ _ _ Inv0 Rel0 Er Hwf) as (b & HI & HR & _ & H09).
+    destruct (run_sim _ _ _ _ _ _ Inv0 Rel0 Er Hwf eq_refl) as (b & HI & HR & _ & H09).
     destruct (H09 NoLeak0) as [L _].
-    pose proof (run_g _ _ _ _ _ _ Inv0 Rel0 RelG0 Er Hwf) as HG.
+    pose proof (run_g _ _ _ _ _ _ Inv0 Rel0 RelG0 Er Hwf eq_refl) as HG.
     apply subz_In. intros x Hx. apply (held_sub s _ b); auto.
     apply (proj1 (subz_In _ _) Ha). exact Hx.
 Qed.
